@@ -29,6 +29,7 @@ func zzEthTx(from string, to *common.Address, gas uint64, gasPrice, value *big.I
 }
 
 const zzEvmReverter = "0x00000000000000000000000000000000000000E3" // code: REVERT(0,0)
+const zzEvmSecond = "0x00000000000000000000000000000000000000E4"   // code: SSTORE(0,1); LOG0; STOP
 
 // zzEvmProgram assembles the callee: an optional nested call made FIRST (to a contract that always
 // reverts, or 5 wei sent to a plain account), then SSTORE(0,1) and LOG0, then one of four endings.
@@ -78,6 +79,8 @@ func ZZH_C07_eth() {
 	exec.ledger.SetState(contract, common.Hash{}.Bytes(), common.BytesToHash([]byte{7}).Bytes(), nil)
 	exec.ledger.SetBalance(contract, big.NewInt(50))
 	exec.ledger.SetBalance(other, big.NewInt(9))
+	exec.ledger.SetCode(zzAddr(zzEvmSecond), zzEvmProgram(0, 0))
+	exec.ledger.SetBalance(zzAddr(zzUsers[1]), big.NewInt(1000000000))
 	preSender := zzSetBalance(exec, zzUsers[0], "senderBal")
 	accounts, root := exec.ledger.FlushDirtyData()
 	_ = exec.ledger.StateLedger.Commit(1, accounts, root)
@@ -106,10 +109,21 @@ func ZZH_C07_eth() {
 		s.Add(s, zzBalance(exec, zzAdmins[0]))
 		return s
 	}
+	// an earlier eth transaction of the same block by another account (what it leaves behind - dirty
+	// accounts, logs, access list, a finished journal - must not change what the checked one may do):
+	// none, a successful call of a second contract (SSTORE, LOG0, STOP), thorough: a failing call
+	if earlier := zz.Choice("earlierTx", zz.Tier(2, 3)); earlier != 0 {
+		tgt := common.HexToAddress(zzEvmSecond)
+		if earlier == 2 {
+			tgt = common.HexToAddress(zzEvmReverter)
+		}
+		r0 := exec.applyTransaction(0, zzEthTx(zzUsers[1], &tgt, 100000, big.NewInt(1), big.NewInt(0), nil), "", nil)
+		zz.Assert("C07.eth.earlier-tx-outcome", r0 != nil && (r0.Status == pb.Receipt_SUCCESS) == (earlier == 1))
+	}
 	preSum := sum()
 	tx := zzEthTx(zzUsers[0], to, gas, gasPrice, value, data)
 	preNonce := exec.ledger.GetNonce(sender)
-	receipt := exec.applyTransaction(0, tx, "", nil)
+	receipt := exec.applyTransaction(1, tx, "", nil)
 	zz.Assert("C08.eth.one-receipt-with-a-status", receipt != nil && (receipt.Status == pb.Receipt_SUCCESS || receipt.Status == pb.Receipt_FAILED))
 	if receipt == nil {
 		return
